@@ -202,7 +202,7 @@ class HistoryGen:
 
     def session(self, same_toc=False):
         rng = self.rng
-        self.emit(['refresh', rng.random() < 0.85])
+        self.emit(['refresh', rng.random() < 0.75])
         self.deliver()
         if not same_toc or not self.toc_entries:
             self.toc_entries = self.make_toc()
@@ -676,8 +676,9 @@ def _same_value(ty, sent, got):
     return struct.pack(fmt, got) == struct.pack(fmt, ref) and got == ref
 
 
-def _device_decode(pkts, ident):
-    """firmware view of the create/append messages (protocol V2): list of (type byte, index)"""
+def _device_decode(pkts, ident, v2=True):
+    """firmware view of the create/append messages: list of (type byte, index).  v2: commands 6/7 with 16-bit
+    indices (the current protocol); otherwise the legacy commands 0/1 with 8-bit indices"""
     out = []
     if not pkts:
         raise _Fail('create_no_message', 'at least one create message', [])
@@ -688,17 +689,21 @@ def _device_decode(pkts, ident):
             raise _Fail('create_message_longer_than_30_bytes', '<= 30', len(data), 'message %d: %r' % (k, data))
         if len(data) < 2:
             raise _Fail('create_message_malformed', '>= 2 bytes', data)
-        want = 6 if k == 0 else 7
+        want = (6 if k == 0 else 7) if v2 else (0 if k == 0 else 1)
         if data[0] != want or data[1] != ident:
             raise _Fail('create_message_header', [want, ident], data[:2], 'message %d' % k)
         if list(exp) != [want, ident]:
             raise _Fail('create_expected_reply', [want, ident], list(exp))
-        n = (len(data) - 2) // 3
+        n = (len(data) - 2) // (3 if v2 else 2)
         if k > 0 and n == 0:
             raise _Fail('create_empty_append_message', '>= 1 variable', data)
         for j in range(n):
-            t, lo, hi = data[2 + 3 * j: 5 + 3 * j]
-            out.append([t, lo + 256 * hi])
+            if v2:
+                t, lo, hi = data[2 + 3 * j: 5 + 3 * j]
+                out.append([t, lo + 256 * hi])
+            else:
+                t, i8 = data[2 + 2 * j: 4 + 2 * j]
+                out.append([t, i8])
     return out
 
 
@@ -723,8 +728,13 @@ def _check_block(case):
     for nm, ident, ty in case['toc']:
         toc[nm] = (ident, ty)
 
-    def open_session(table=None):
-        ev(['refresh', True])
+    gens2 = case.get('v2', [True, True])      # protocol generation of the first / the reconnect session
+    cur_v2 = [gens2[0]]
+
+    def open_session(table=None, v2=None):
+        if v2 is not None:
+            cur_v2[0] = v2
+        ev(['refresh', cur_v2[0]])
         ev(['pkt', 1, [5, 0, 0]])
         ev(['settoc', table if table is not None else case['toc']])
     open_session()
@@ -832,11 +842,13 @@ def _check_block(case):
             raise _Fail('stale_added_flag_after_reconnect_start_skips_create',
                         'create message for the re-added block (the device was reset)', wires,
                         'added/started survive the reconnect, start() sends START for an id the device never saw')
-        ents = _device_decode(wires, cfg.id)
+        ents = _device_decode(wires, cfg.id, cur_v2[0])
         want = [[(f | (f << 4)) & 0x0F, toc[n][0]] for n, f, _m in want_vars]
         got = [[t & 0x0F, i] for t, i in ents]
         if got != want:
-            raise _Fail('create_variables_mismatch' + tag, want, got, 'device-side (fetch type, index) list')
+            raise _Fail('create_variables_mismatch' + tag, want, got,
+                        'device-side (fetch type, index) list; protocol generation of the session: %s'
+                        % ('V2 (6/7, 16-bit index)' if cur_v2[0] else 'legacy (0/1, 8-bit index)'))
         return wires
     wires = check_creation('')
     if wires is None:
@@ -849,7 +861,7 @@ def _check_block(case):
     def device_acks(tag, samples):
         """the device holds the block now and acknowledges: create ack -> added + added_cb + START(period);
         start ack -> started + started_cb; then its data packets must reach the callback"""
-        w, code, obs = ev(['pkt', 1, [6, cfg.id, 0]])
+        w, code, obs = ev(['pkt', 1, [6 if cur_v2[0] else 0, cfg.id, 0]])
         if code or [x[2] for x in w] != [[3, cfg.id, period]] or not cfg.added:
             raise _Fail('create_ack_not_followed_by_start' + tag, [[3, cfg.id, period], 'added=True'],
                         [[x[2] for x in w], 'added=%s' % cfg.added, 'exception code %d' % code],
@@ -884,7 +896,7 @@ def _check_block(case):
         # nothing may be started.  Room is made on the device, the same configuration is started again in the
         # same session: the block must be created again
         status = case['refuse']
-        w, code, obs = ev(['pkt', 1, [6, cfg.id, status]])
+        w, code, obs = ev(['pkt', 1, [6 if cur_v2[0] else 0, cfg.id, status]])
         if code or w or cfg.added or cfg.started:
             raise _Fail('refused_create_ack_moved_flags_or_sent', [[], 'added=False', 'started=False'],
                         [[x[2] for x in w], 'added=%s' % cfg.added, 'started=%s' % cfg.started, 'exception code %d' % code],
@@ -936,7 +948,7 @@ def _check_block(case):
     for nm, ident, ty in toc2_list:
         toc2[nm] = (ident, ty)
     ev(['linkdown'])
-    open_session(toc2_list)
+    open_session(toc2_list, gens2[1])
     if cfg.added or cfg.started:
         raise _Fail('stale_added_flag_after_reconnect_start_skips_create', [False, False],
                     [cfg.added, cfg.started], 'the device was reset by the new session, the block does not exist any more')
@@ -1106,6 +1118,27 @@ def _gen_block_case(rng, force=None):
                 for e, i in zip(t2, ids):
                     e[1] = i
             case['toc2'] = t2
+    # the protocol generation may change between the sessions (firmware < 4: legacy messages, 8-bit indices)
+    ntab = len([v for v in vs if v[0] != 'm'])
+    r = rng.random()
+    if ntab <= 12 and r < 0.3:
+        def small(table):
+            return [[e[0], 2 * k + 1, e[2]] for k, e in enumerate(table)]
+
+        def big(table):
+            ids = rng.sample(range(256, 65536), len(table))
+            return [[e[0], i, e[2]] for e, i in zip(table, ids)]
+        case['reconnect'] = True
+        base2 = case.get('toc2') or case.get('retry_toc') or case['toc']
+        if r < 0.22:
+            case['v2'] = [False, True]
+            case['toc'] = small(case['toc'])
+            if case.get('retry_toc'):
+                case['retry_toc'] = small(case['retry_toc'])
+            case['toc2'] = big(base2)
+        else:
+            case['v2'] = [True, False]
+            case['toc2'] = small(base2)
     return case
 
 
@@ -1428,6 +1461,7 @@ def _shrink(case, cls, budget=400):
             continue
         cands = []
         for key, val in (('reconnect', False), ('delete', False), ('restart', None), ('toc2', None), ('refuse', None),
+                         ('v2', None),
                          ('samples', []),
                          ('ms', 100)):
             if cur.get(key) not in (val, None) or (key == 'ms' and cur.get('ms') != 100):
@@ -1546,7 +1580,8 @@ PROVED = ('Over the model: add_config accepts iff names in TOC, 1<=int(ms/10)<=2
           'point of connect() (step-by-step connect, loss between steps or inside a send); the late-registration variant '
           'of connect() is refuted; value contract of a sent packet (fresh packet per create/append message: transmitted = '
           'commanded for every lag and resend schedule; shared packet object refuted); start() of a not added block '
-          'always creates (a refusal does not wedge it; the pending-guarded variant is refuted).')
+          'always creates (a refusal does not wedge it; the pending-guarded variant is refuted); every accepted add binds '
+          'the configuration to the protocol generation of the current session (bind-once refuted).')
 NOT_PROVED = ('Refuted on the unchanged code and kept as a known finding: raw-memory variables (add_memory) make create() '
               'raise TypeError (F05a; why it is not repaired: findings/C05.json why_not_fixed).  Not covered: protocol V1 has '
               'its theorem but no room test exists in the code (more than 14 variables exceed 30 bytes); append '
